@@ -37,24 +37,44 @@ impl GC {
 
     /// Removes the given object (and everything it refers) from this garbage collector so it is no longer managed by it
     pub fn untrace(&mut self, o: Object) {
-        if let Some(pos) = self
-            .objects
-            .iter()
-            .position(|a| std::ptr::eq(a.as_ptr(), o.as_ptr()))
-        {
-            self.objects.swap_remove(pos);
+        if !o.is_heap_allocated() {
+            return;
+        }
+
+        if o.tag() != Type::Array {
+            if let Some(pos) = self
+                .objects
+                .iter()
+                .position(|a| std::ptr::eq(a.as_ptr(), o.as_ptr()))
+            {
+                self.objects.swap_remove(pos);
+                self.mark_bitmap.truncate(self.objects.len());
+            }
+            return;
+        }
+
+        // Everything inside of a managed array is handed over with it. The array is walked with a
+        // list of pending objects instead of recursion, because arrays can be nested deeper than
+        // the native stack allows. Unmanaged arrays are not looked into.
+        let managed: HashSet<*mut u8> = self.objects.iter().map(|a| a.as_ptr()).collect();
+        let mut released = HashSet::new();
+        let mut pending = vec![o];
+        while let Some(o) = pending.pop() {
+            if !o.is_heap_allocated()
+                || !managed.contains(&o.as_ptr())
+                || !released.insert(o.as_ptr())
+            {
+                continue;
+            }
 
             if o.tag() == Type::Array {
                 // Safety: We've already checked the type
-                unsafe {
-                    for val in o.as_vec_unchecked() {
-                        self.untrace(*val);
-                    }
-                }
+                pending.extend(unsafe { o.as_vec_unchecked() }.iter().copied());
             }
-
-            self.mark_bitmap.truncate(self.objects.len());
         }
+
+        self.objects.retain(|a| !released.contains(&a.as_ptr()));
+        self.mark_bitmap.truncate(self.objects.len());
     }
 
     /// Frees all objects that are (still) managed by this garbage collector
@@ -129,43 +149,36 @@ impl GC {
         self.mark_bitmap.clear();
     }
 
-    /// Marks the given object as reachable
+    /// Marks the given object and everything it refers to as reachable
     fn mark(
         &mut self,
         o: &Object,
         index: &HashMap<*mut u8, usize>,
         foreign: &mut HashSet<*mut u8>,
     ) {
-        if !o.is_heap_allocated() {
-            return;
-        }
+        // A list of pending objects instead of recursion: arrays can be nested
+        // deeper than the native stack allows (a linked list of [value, next] pairs)
+        let mut pending = vec![*o];
+        while let Some(o) = pending.pop() {
+            if !o.is_heap_allocated() {
+                continue;
+            }
 
-        match index.get(&o.as_ptr()).copied() {
-            Some(position) => {
-                // No need to mark recursively on arrays if this one was
+            let first_visit = match index.get(&o.as_ptr()).copied() {
+                // No need to look inside arrays again if this one was
                 // already marked (e.g. because the same object was found
                 // in multiple places such as the stack and the result of
                 // a function call).
-                if !self.mark_bitmap[position] {
-                    self.mark_bitmap.set(position, true);
+                Some(position) => !self.mark_bitmap.replace(position, true),
 
-                    if o.tag() == Type::Array {
-                        // Safety: we already checked the type.
-                        for v in unsafe { o.as_vec_unchecked() } {
-                            self.mark(v, index, foreign);
-                        }
-                    }
-                }
-            }
-            None => {
                 // This object is not managed by this collector, so it is never freed here.
                 // If it is an array it can still hold objects that are, so look inside (once).
-                if o.tag() == Type::Array && foreign.insert(o.as_ptr()) {
-                    // Safety: we already checked the type.
-                    for v in unsafe { o.as_vec_unchecked() } {
-                        self.mark(v, index, foreign);
-                    }
-                }
+                None => o.tag() == Type::Array && foreign.insert(o.as_ptr()),
+            };
+
+            if first_visit && o.tag() == Type::Array {
+                // Safety: we already checked the type.
+                pending.extend(unsafe { o.as_vec_unchecked() }.iter().copied());
             }
         }
     }
